@@ -63,14 +63,14 @@ func (s *Scenario) buildP() *canvas.Path {
 	if s.CP != nil {
 		return latgeo.BuildCurved(s.CP, s.Emb)
 	}
-	return latgeo.Build(s.P, s.Emb)
+	return latgeo.BuildSalt(s.P, s.Emb, 1)
 }
 
 func (s *Scenario) buildQ() *canvas.Path {
 	if s.CQ != nil {
 		return latgeo.BuildCurved(s.CQ, s.Emb)
 	}
-	return latgeo.Build(s.Q, s.Emb)
+	return latgeo.BuildSalt(s.Q, s.Emb, 2)
 }
 
 func (s *Scenario) psvg() string {
@@ -106,6 +106,9 @@ func (s *Scenario) tag() string {
 // float arithmetic is exact on the inputs), "~float" for every other embedding (coincidences become near-coincidences).
 func (s *Scenario) embClass() string {
 	multi := "@" + s.Space
+	if s.Emb.Name == "jitter" {
+		return multi + "~jitter" // sub-grid near-coincidences
+	}
 	for _, e := range latgeo.Symmetries {
 		if e.Name == s.Emb.Name {
 			return multi
@@ -251,7 +254,7 @@ func cfg(n, k, nc int, mode string, num int, what string, mc bool) string {
 
 // embeddings used for a scenario index (all scenarios get the identity; others rotate through the list)
 func embsFor(i int64, thorough bool) []latgeo.Emb {
-	extra := []latgeo.Emb{latgeo.Symmetries[1], latgeo.Symmetries[4], latgeo.Symmetries[6], latgeo.Translate, latgeo.Tiny, latgeo.Huge, latgeo.Pyth, latgeo.Shear, latgeo.Symmetries[2], latgeo.Symmetries[7], latgeo.Aniso}
+	extra := []latgeo.Emb{latgeo.Symmetries[1], latgeo.Symmetries[4], latgeo.Symmetries[6], latgeo.Translate, latgeo.Tiny, latgeo.Huge, latgeo.Pyth, latgeo.Shear, latgeo.Symmetries[2], latgeo.Symmetries[7], latgeo.Aniso, latgeo.Jitter, latgeo.Jitter}
 	out := []latgeo.Emb{latgeo.Identity, extra[int(i)%len(extra)]}
 	if thorough {
 		out = append(out, extra[int(i/7+3)%len(extra)])
